@@ -62,7 +62,7 @@ end KV.C02
 
 namespace KV.C02
 
-/-! ### Well-formed v2 layouts -/
+/-! ### Well-formed layouts -/
 
 def sumSizes : List (Int × Nat × Nat) → Nat
   | [] => 0
@@ -70,19 +70,47 @@ def sumSizes : List (Int × Nat × Nat) → Nat
 
 def absRecs (base : Int) (recs : List (Int × Nat × Nat)) : List Rec := recs.map fun (d, t, _) => (base + d, t)
 
+def absInner (base : Int) (inner : List (Int × Nat)) : List Rec := inner.map fun (f, t) => (f + base, t)
+
 /-- retained records of a batch [base,last]: offsets strictly increasing from `lo`, inside the batch, sizes positive -/
 def RecsWF (base last : Int) : Int → List (Int × Nat × Nat) → Prop
   | _, [] => True
   | lo, (d, _, z) :: rs => lo ≤ base + d ∧ base + d ≤ last ∧ 1 ≤ z ∧ RecsWF base last (base + d + 1) rs
 
-/-- a layout of v2 batches: ranges [base,last] disjoint and increasing from `nb`; a plain batch's payload is its
-records; an empty batch is a bare header; a compressed payload is not empty -/
-def V2WF : Int → List Item → Prop
+/-- inner messages of a wrapper: absolute offsets (field + base) strictly increasing from `lo`, at most `hi` -/
+def InnerWF (base hi : Int) : Int → List (Int × Nat) → Prop
+  | _, [] => True
+  | lo, (f, _) :: ms => lo ≤ f + base ∧ f + base ≤ hi ∧ InnerWF base hi (f + base + 1) ms
+
+/-- a layout: item ranges disjoint and increasing from `nb`.  v2 batch: a plain batch's payload is its records, an
+empty batch is a bare header, a compressed payload is not empty.  v0/v1: magic 0 or 1, a message is longer than its
+header, a wrapper is not empty and carries the absolute offset of its last inner message. -/
+def LWF : Int → List Item → Prop
   | _, [] => True
   | nb, .b2 base last codec plen recs :: rest =>
     nb ≤ base ∧ base ≤ last ∧ RecsWF base last base recs ∧ (codec = false → plen = sumSizes recs) ∧
-    (codec = true → recs ≠ [] ∧ 1 ≤ plen) ∧ V2WF (last + 1) rest
-  | _, _ :: _ => False
+    (codec = true → recs ≠ [] ∧ 1 ≤ plen) ∧ LWF (last + 1) rest
+  | nb, .m magic off _ size :: rest =>
+    (magic = 0 ∨ magic = 1) ∧ nb ≤ off ∧ hdr1Size magic ≤ size ∧ LWF (off + 1) rest
+  | nb, .w magic woff size inner :: rest =>
+    (magic = 0 ∨ magic = 1) ∧ inner ≠ [] ∧ InnerWF (wrapperBase woff inner) woff nb inner ∧ hdr1Size magic ≤ size ∧
+    LWF (woff + 1) rest
+
+def isB2 : Item → Bool
+  | .b2 .. => true
+  | _ => false
+
+def headB2 : List Item → Bool
+  | it :: _ => isB2 it
+  | [] => false
+
+/-- the decoder can only be asked to leave a v0/v1 item for a v2 batch after it has *returned* a message of that
+item (readMessageV1's loop cannot read a v2 header): the last message of a v0/v1 item that is followed by a v2
+batch is at or above the start offset.  Holds for every response that obeys the fetch contract (`safe_of_contract`),
+for pure v2 and for pure v0/v1 layouts whatever the offset. -/
+def Safe (o : Int) : List Item → Prop
+  | [] => True
+  | it :: rest => (headB2 rest = true → isB2 it = true ∨ o ≤ it.last) ∧ Safe o rest
 
 theorem recsWF_lb {base last : Int} : ∀ {recs : List (Int × Nat × Nat)} {lo : Int}, RecsWF base last lo recs →
     ∀ r ∈ absRecs base recs, lo ≤ r.1 ∧ r.1 ≤ last := by
@@ -99,23 +127,86 @@ theorem recsWF_lb {base last : Int} : ∀ {recs : List (Int × Nat × Nat)} {lo 
     · have := ih h.2.2.2 r (by simpa [absRecs] using hr)
       omega
 
-theorem v2wf_lb : ∀ {items : List Item} {nb : Int}, V2WF nb items → ∀ r ∈ allRecords items, nb ≤ r.1 := by
+theorem innerWF_lb {base hi : Int} : ∀ {inner : List (Int × Nat)} {lo : Int}, InnerWF base hi lo inner →
+    ∀ r ∈ absInner base inner, lo ≤ r.1 ∧ r.1 ≤ hi := by
+  intro inner
+  induction inner with
+  | nil => intro lo _ r hr; simp [absInner] at hr
+  | cons x ms ih =>
+    intro lo h r hr
+    obtain ⟨f, t⟩ := x
+    simp only [InnerWF] at h
+    simp only [absInner, List.map_cons, List.mem_cons] at hr
+    rcases hr with rfl | hr
+    · simp; omega
+    · have := ih h.2.2 r (by simpa [absInner] using hr)
+      omega
+
+theorem records_w (magic : Nat) (woff : Int) (size : Nat) (inner : List (Int × Nat)) :
+    (Item.w magic woff size inner).records = absInner (wrapperBase woff inner) inner := rfl
+
+theorem records_b2 (base last : Int) (codec : Bool) (plen : Nat) (recs : List (Int × Nat × Nat)) :
+    (Item.b2 base last codec plen recs).records = absRecs base recs := rfl
+
+/-- records of an item lie in [nb, it.last] -/
+theorem item_bounds {nb : Int} {it : Item} {rest : List Item} (h : LWF nb (it :: rest)) :
+    (∀ r ∈ it.records, nb ≤ r.1 ∧ r.1 ≤ it.last) ∧ nb ≤ it.last ∧ LWF (it.last + 1) rest := by
+  cases it with
+  | b2 base last codec plen recs =>
+    simp only [LWF] at h
+    refine ⟨?_, by simp only [Item.last]; omega, h.2.2.2.2.2⟩
+    intro r hr
+    have := recsWF_lb h.2.2.1 r (by simpa [records_b2] using hr)
+    simp only [Item.last]; omega
+  | m magic off tag size =>
+    simp only [LWF] at h
+    refine ⟨?_, h.2.1, h.2.2.2⟩
+    intro r hr
+    simp only [Item.records, List.mem_singleton] at hr
+    subst hr
+    simp only [Item.last]; omega
+  | w magic woff size inner =>
+    simp only [LWF] at h
+    obtain ⟨_, hne, hin, _, hrest⟩ := h
+    have hb : ∀ r ∈ absInner (wrapperBase woff inner) inner, nb ≤ r.1 ∧ r.1 ≤ woff := innerWF_lb hin
+    refine ⟨fun r hr => hb r (by simpa [records_w] using hr), ?_, hrest⟩
+    cases inner with
+    | nil => exact absurd rfl hne
+    | cons x ms =>
+      have := hb (x.1 + wrapperBase woff (x :: ms), x.2) (by simp [absInner])
+      simp only [Item.last]; omega
+
+theorem lwf_mono : ∀ {items : List Item} {nb nb' : Int}, nb' ≤ nb → LWF nb items → LWF nb' items := by
+  intro items nb nb' hle h
+  cases items with
+  | nil => trivial
+  | cons it rest =>
+    cases it with
+    | b2 base last codec plen recs => simp only [LWF] at h ⊢; exact ⟨by omega, h.2⟩
+    | m magic off tag size => simp only [LWF] at h ⊢; exact ⟨h.1, by omega, h.2.2⟩
+    | w magic woff size inner =>
+      simp only [LWF] at h ⊢
+      refine ⟨h.1, h.2.1, ?_, h.2.2.2⟩
+      cases inner with
+      | nil => trivial
+      | cons x ms =>
+        obtain ⟨f, t⟩ := x
+        have := h.2.2.1
+        simp only [InnerWF] at this ⊢
+        exact ⟨by omega, this.2⟩
+
+theorem lwf_lb : ∀ {items : List Item} {nb : Int}, LWF nb items → ∀ r ∈ allRecords items, nb ≤ r.1 := by
   intro items
   induction items with
   | nil => intro nb _ r hr; simp [allRecords] at hr
   | cons it rest ih =>
     intro nb h r hr
-    cases it with
-    | b2 base last codec plen recs =>
-      simp only [V2WF] at h
-      simp only [allRecords, List.flatMap_cons, List.mem_append] at hr
-      rcases hr with hr | hr
-      · have := recsWF_lb h.2.2.1 r (by simpa [Item.records, absRecs] using hr)
-        omega
-      · have := ih h.2.2.2.2.2 r (by simpa [allRecords] using hr)
-        omega
-    | m _ _ _ _ => simp [V2WF] at h
-    | w _ _ _ _ => simp [V2WF] at h
+    obtain ⟨h1, h2, h3⟩ := item_bounds h
+    simp only [allRecords, List.flatMap_cons, List.mem_append] at hr
+    rcases hr with hr | hr
+    · exact (h1 r hr).1
+    · have := ih h3 r (by simpa [allRecords] using hr)
+      omega
 
 end KV.C02
 
@@ -123,16 +214,24 @@ namespace KV.C02
 
 /-! ### Invariants of the repaired decoder between items / inside a batch -/
 
-/-- state between two items; `nb` bounds everything still to come from below -/
-structure Bnd (o nb : Int) (s : St) : Prop where
+/-- what has been returned so far lies in [o, batch.offset) and is strictly increasing -/
+def OutOK (o : Int) (s : St) : Prop :=
+  (∀ r ∈ s.out, o ≤ r.1 ∧ r.1 < s.off) ∧ s.out.Pairwise (fun a b => a.1 < b.1)
+
+/-- state between two items; `nb` bounds everything still to come from below; `v2n`: the next item is a v2 batch -/
+structure Bnd (o nb : Int) (v2n : Bool) (s : St) : Prop where
   count0 : s.count = 0
-  notV1 : s.inV1 = false
+  notV1 : v2n = true → s.inV1 = false
   be : s.batchEnd ≤ nb
   offle : s.off ≤ o ∨ s.off ≤ nb
   lastle : s.lastOff ≤ nb
   nb0 : 0 ≤ nb
   J : s.started = true → s.lenRem = 0 → s.lastOff ≥ s.off → s.lastOff + 1 ≤ s.batchEnd
   init : s.started = false → s.batchEnd ≤ s.off
+  outok : OutOK o s
+
+theorem Bnd.weaken {o nb : Int} {v2n : Bool} {s : St} (h : Bnd o nb true s) : Bnd o nb v2n s :=
+  ⟨h.count0, fun _ => h.notV1 rfl, h.be, h.offle, h.lastle, h.nb0, h.J, h.init, h.outok⟩
 
 /-- state inside batch [base,last] with `recs` still to be read, all at or above `lo` -/
 structure Mid (o base last lo : Int) (recs : List (Int × Nat × Nat)) (codec : Bool) (s : St) : Prop where
@@ -147,18 +246,49 @@ structure Mid (o base last lo : Int) (recs : List (Int × Nat × Nat)) (codec : 
   lo0 : 0 ≤ lo
   len : codec = false → s.lenRem = sumSizes recs
   codecEq : s.codec = codec
+  outok : OutOK o s
 
 /-- what `finish` does to the repaired machine when the legacy jump is harmless -/
 theorem finish_fixed (e : Bool) (s : St)
     (hJ : s.started = true → s.lenRem = 0 → s.lastOff ≥ s.off → s.lastOff + 1 ≤ s.batchEnd) :
     (finish .fixed e s).1.out = s.out ∧ (finish .fixed e s).2 ≠ .desync ∧
     ((s.started = false → s.batchEnd ≤ s.off) → s.batchEnd ≤ (finish .fixed e s).1.off) ∧
-    ((finish .fixed e s).1.off ≤ s.off ∨ (finish .fixed e s).1.off ≤ s.batchEnd) := by
+    ((finish .fixed e s).1.off ≤ s.off ∨ (finish .fixed e s).1.off ≤ s.batchEnd) ∧
+    s.off ≤ (finish .fixed e s).1.off := by
   have hJ' : s.started = true → s.lenRem = 0 → s.off ≤ s.lastOff → s.lastOff + 1 ≤ s.batchEnd := hJ
   cases hst : s.started <;> cases e <;> simp only [hst] at hJ' <;>
     simp only [finish, hst, Bool.not_true, Bool.not_false, Bool.false_eq_true, if_false, if_true, reduceCtorEq,
       true_and, false_and, ne_eq, not_false_eq_true, and_true, true_implies] <;>
-    constructor <;> (try intro _) <;> (repeat' split) <;> simp_all <;> omega
+    refine ⟨?_, ?_, ?_⟩ <;> (try intro _) <;> (repeat' split) <;> simp_all <;> omega
+
+/-- a message at `x`, at or above everything read so far, comes back from the messageSetReader -/
+theorem onRecord_outOK {o x lastOffset : Int} {tag : Nat} {s : St} (h : OutOK o s) (hoff : s.off ≤ o ∨ s.off ≤ x) :
+    OutOK o (onRecord .fixed o s x lastOffset tag) := by
+  obtain ⟨h1, h2⟩ := h
+  have hlt : ∀ r ∈ s.out, r.1 < x := by
+    intro r hr
+    have := h1 r hr
+    omega
+  have hoff2 : x + 1 ≤ (onRecord .fixed o s x lastOffset tag).off := by
+    simp only [onRecord]; split <;> omega
+  constructor
+  · intro r hr
+    simp only [onRecord] at hr
+    split at hr
+    · have := h1 r hr; have := hlt r hr; omega
+    · simp only [List.mem_append, List.mem_singleton] at hr
+      rcases hr with hr | rfl
+      · have := h1 r hr; have := hlt r hr; omega
+      · simp only; omega
+  · simp only [onRecord]
+    split
+    · exact h2
+    · rw [List.pairwise_append]
+      refine ⟨h2, by simp, ?_⟩
+      intro a ha b hb
+      simp only [List.mem_singleton] at hb
+      subst hb
+      exact hlt a ha
 
 end KV.C02
 
@@ -168,12 +298,17 @@ theorem recordV2_mid {o base last lo d : Int} {t z : Nat} {rs : List (Int × Nat
     (hm : Mid o base last lo ((d, t, z) :: rs) codec s) (hw : RecsWF base last lo ((d, t, z) :: rs)) :
     (recordV2 .fixed o s d t z).out = s.out ++ (if o ≤ base + d then [(base + d, t)] else []) ∧
     (rs ≠ [] → Mid o base last (base + d + 1) rs codec (recordV2 .fixed o s d t z)) ∧
-    (rs = [] → Bnd o (last + 1) (recordV2 .fixed o s d t z)) ∧
+    (rs = [] → ∀ v2n, Bnd o (last + 1) v2n (recordV2 .fixed o s d t z) ∧ last + 1 ≤ (recordV2 .fixed o s d t z).batchEnd) ∧
     s.batchEnd ≤ (recordV2 .fixed o s d t z).batchEnd := by
-  obtain ⟨hmagic, hcount, hfirst, hlastD, hstarted, hnotV1, hbe, hoffle, hlo0, hlen, hcodec⟩ := hm
+  obtain ⟨hmagic, hcount, hfirst, hlastD, hstarted, hnotV1, hbe, hoffle, hlo0, hlen, hcodec, houtok⟩ := hm
   simp only [RecsWF] at hw
   obtain ⟨hlo, hle, hz, _⟩ := hw
   simp only [List.length_cons] at hcount
+  have hok : OutOK o (recordV2 .fixed o s d t z) := by
+    unfold recordV2
+    apply onRecord_outOK
+    · exact houtok
+    · simp only [hfirst]; omega
   refine ⟨?_, ?_, ?_, ?_⟩
   · simp only [recordV2, onRecord, hfirst]
     by_cases h : o ≤ base + d
@@ -188,16 +323,17 @@ theorem recordV2_mid {o base last lo d : Int} {t z : Nat} {rs : List (Int × Nat
       cases codec with
       | true => right; rfl
       | false => left; have := hlen rfl; simp only [sumSizes] at this; omega
-    refine ⟨?_, ?_, ?_, ?_, ?_, ?_, ?_, ?_, ?_, ?_, ?_⟩ <;>
+    refine ⟨?_, ?_, ?_, ?_, ?_, ?_, ?_, ?_, ?_, ?_, ?_, hok⟩ <;>
       (try simp only [recordV2, onRecord, hc1, and_false, if_false, hfirst, hmagic, hlastD, hstarted, hcodec, true_and]) <;>
       (try (split <;> omega)) <;> (try omega)
     · intro hc; subst hc; simpa using hl
-  · intro hrs
+  · intro hrs v2n
     subst hrs
     have hc1 : s.count = 1 := by simpa using hcount
-    refine ⟨?_, ?_, ?_, ?_, ?_, ?_, ?_, ?_⟩ <;>
+    refine ⟨⟨?_, ?_, ?_, ?_, ?_, ?_, ?_, ?_, hok⟩, ?_⟩ <;>
       (try simp only [recordV2, onRecord, hc1, and_true, if_true, hfirst, hlastD, hstarted, true_and]) <;>
       (try (split <;> omega)) <;> (try omega)
+    all_goals (intros; trivial)
   · simp only [recordV2, onRecord]
     split <;> omega
 
@@ -207,12 +343,14 @@ namespace KV.C02
 
 /-- what a run from state `s0` must achieve: exactly the expected records at or above `o` are appended, no
 desynchronisation, no stored record at or above `o` below the final offset is missing, the offset ends at or
-above the batch end known at the start -/
-structure PostL (o : Int) (expect all : List Rec) (s0 : St) (res : St × Outcome) : Prop where
+above the batch end known at the start (and above `prog` when given), everything returned is below the final offset -/
+structure PostL (o : Int) (expect all : List Rec) (prog : Option Int) (s0 : St) (res : St × Outcome) : Prop where
   out : res.1.out = s0.out ++ expect.filter (fun r => o ≤ r.1)
   ok : res.2 ≠ .desync
   nogap : ∀ r ∈ all, o ≤ r.1 → r.1 < res.1.off → r ∈ expect
   lower : s0.batchEnd ≤ res.1.off
+  resok : OutOK o res.1
+  prog : ∀ b, prog = some b → b ≤ res.1.off
 
 def r2Toks (recs : List (Int × Nat × Nat)) : List Tok := recs.map fun x => Tok.r2 x.1 x.2.1 x.2.2
 
@@ -220,28 +358,44 @@ def r2Toks (recs : List (Int × Nat × Nat)) : List Tok := recs.map fun x => Tok
 theorem postL_finish {e : Bool} {o lo : Int} {all : List Rec} {s : St}
     (hJ : s.started = true → s.lenRem = 0 → s.lastOff ≥ s.off → s.lastOff + 1 ≤ s.batchEnd)
     (hinit : s.started = false → s.batchEnd ≤ s.off)
-    (hoff : s.off ≤ o ∨ s.off ≤ lo) (hbe : s.batchEnd ≤ lo) (hall : ∀ r ∈ all, lo ≤ r.1) :
-    PostL o [] all s (finish .fixed e s) := by
-  obtain ⟨h1, h2, h3, h4⟩ := finish_fixed e s hJ
-  refine ⟨by simp [h1], h2, ?_, h3 hinit⟩
-  intro r hr ho hlt
-  have := hall r hr
-  omega
+    (hoff : s.off ≤ o ∨ s.off ≤ lo) (hbe : s.batchEnd ≤ lo) (hall : ∀ r ∈ all, lo ≤ r.1) (hok : OutOK o s) :
+    PostL o [] all none s (finish .fixed e s) := by
+  obtain ⟨h1, h2, h3, h4, h5⟩ := finish_fixed e s hJ
+  refine ⟨by simp [h1], h2, ?_, h3 hinit, ?_, by intro b hb; cases hb⟩
+  · intro r hr ho hlt
+    have := hall r hr
+    omega
+  · refine ⟨?_, by rw [h1]; exact hok.2⟩
+    intro r hr
+    rw [h1] at hr
+    have := hok.1 r hr
+    omega
 
-theorem plain_recs (e : Bool) (o base last : Int) (rest : List Item)
-    (IH : ∀ (s : St) (n : Nat), Bnd o (last + 1) s →
-      PostL o (contained rest n) (allRecords rest) s (runCut .fixed e o s (allTokens rest) n))
+theorem plain_recs (e : Bool) (o base last : Int) (rest : List Item) (p : Nat → Option Int)
+    (IH : ∀ (s : St) (n : Nat), Bnd o (last + 1) (headB2 rest) s →
+      PostL o (contained rest n) (allRecords rest) (p n) s (runCut .fixed e o s (allTokens rest) n))
     (hrest : ∀ r ∈ allRecords rest, last + 1 ≤ r.1) :
     ∀ (recs : List (Int × Nat × Nat)) (s : St) (n : Nat) (lo : Int),
-      (recs ≠ [] → Mid o base last lo recs false s) → (recs = [] → Bnd o (last + 1) s) → RecsWF base last lo recs →
+      (recs ≠ [] → Mid o base last lo recs false s) →
+      (recs = [] → Bnd o (last + 1) (headB2 rest) s ∧ last + 1 ≤ s.batchEnd) → RecsWF base last lo recs →
       PostL o (if sumSizes recs ≤ n then absRecs base recs ++ contained rest (n - sumSizes recs) else fitRecs base recs n)
-        (absRecs base recs ++ allRecords rest) s
+        (absRecs base recs ++ allRecords rest) (if sumSizes recs ≤ n then some (last + 1) else none) s
         (runCut .fixed e o s (r2Toks recs ++ allTokens rest) n) := by
   intro recs
   induction recs with
   | nil =>
     intro s n lo _ hb _
-    simpa [sumSizes, absRecs, r2Toks] using IH s n (hb rfl)
+    have h := IH s n (hb rfl).1
+    have hl := (hb rfl).2
+    refine ⟨by simpa [sumSizes, absRecs, r2Toks] using h.out, by simpa [r2Toks] using h.ok, ?_, by simpa [r2Toks] using h.lower,
+      by simpa [r2Toks] using h.resok, ?_⟩
+    · simpa [sumSizes, absRecs, r2Toks] using h.nogap
+    · intro b hb
+      simp only [sumSizes, Nat.zero_le, if_true, Option.some.injEq] at hb
+      subst hb
+      have := h.lower
+      simp only [r2Toks, List.map_nil, List.nil_append]
+      omega
   | cons x rs ih =>
     intro s n lo hm _ hw
     obtain ⟨d, t, z⟩ := x
@@ -259,7 +413,8 @@ theorem plain_recs (e : Bool) (o base last : Int) (rest : List Item)
           = runCut .fixed e o (recordV2 .fixed o s d t z) (r2Toks rs ++ allTokens rest) (n - z) := by
         simp [r2Toks, runCut, Tok.size, hz, hstep]
       rw [hrun]
-      have ihr := ih (recordV2 .fixed o s d t z) (n - z) (base + d + 1) hmid hbnd hw'.2.2.2
+      have ihr := ih (recordV2 .fixed o s d t z) (n - z) (base + d + 1) hmid (fun h => hbnd h _) hw'.2.2.2
+      have hcond : (sumSizes ((d, t, z) :: rs) ≤ n) ↔ (sumSizes rs ≤ n - z) := by simp only [sumSizes]; omega
       have hexp : (if sumSizes ((d, t, z) :: rs) ≤ n then absRecs base ((d, t, z) :: rs) ++ contained rest (n - sumSizes ((d, t, z) :: rs))
             else fitRecs base ((d, t, z) :: rs) n)
           = (base + d, t) :: (if sumSizes rs ≤ n - z then absRecs base rs ++ contained rest (n - z - sumSizes rs) else fitRecs base rs (n - z)) := by
@@ -271,7 +426,7 @@ theorem plain_recs (e : Bool) (o base last : Int) (rest : List Item)
         · have : ¬ z + sumSizes rs ≤ n := by omega
           simp only [this, h2, if_false]
       rw [hexp]
-      refine ⟨?_, ihr.ok, ?_, by have := ihr.lower; omega⟩
+      refine ⟨?_, ihr.ok, ?_, by have := ihr.lower; omega, ihr.resok, ?_⟩
       · rw [ihr.out, hout, List.filter_cons]
         by_cases h : o ≤ base + d <;> simp [h]
       · intro r hr ho hlt
@@ -279,14 +434,21 @@ theorem plain_recs (e : Bool) (o base last : Int) (rest : List Item)
         rcases hr with rfl | hr
         · simp
         · exact List.mem_cons_of_mem _ (ihr.nogap r (by simpa [absRecs] using hr) ho hlt)
+      · intro b hb
+        apply ihr.prog b
+        by_cases h2 : sumSizes rs ≤ n - z
+        · simp only [hcond.mpr h2, if_true] at hb; simp only [h2, if_true]; exact hb
+        · have : ¬ sumSizes ((d, t, z) :: rs) ≤ n := fun h => h2 (hcond.mp h)
+          simp only [this, if_false] at hb; cases hb
     · -- the record is cut: the pending read fails
       have hrun : runCut .fixed e o s (r2Toks ((d, t, z) :: rs) ++ allTokens rest) n = finish .fixed e s := by
         simp [r2Toks, runCut, Tok.size, hz]
+      have hnot : ¬ sumSizes ((d, t, z) :: rs) ≤ n := by simp only [sumSizes]; omega
       have hexp : (if sumSizes ((d, t, z) :: rs) ≤ n then absRecs base ((d, t, z) :: rs) ++ contained rest (n - sumSizes ((d, t, z) :: rs))
             else fitRecs base ((d, t, z) :: rs) n) = [] := by
-        have : ¬ z + sumSizes rs ≤ n := by omega
-        simp [sumSizes, fitRecs, hz, this]
+        simp [hnot, fitRecs, hz]
       rw [hrun, hexp]
+      simp only [hnot, if_false]
       have hlen := hm.len rfl
       simp only [sumSizes] at hlen
       apply postL_finish (lo := lo)
@@ -299,16 +461,13 @@ theorem plain_recs (e : Bool) (o base last : Int) (rest : List Item)
         rcases hr with hr | hr
         · exact (recsWF_lb hw r hr).1
         · have := hrest r hr; omega
-
-end KV.C02
-
-namespace KV.C02
+      · exact hm.outok
 
 /-- a whole (decompressed) batch read in one go -/
 theorem recordsV2_all {o base last : Int} {codec : Bool} :
     ∀ (recs : List (Int × Nat × Nat)) (s : St) (lo : Int), recs ≠ [] → Mid o base last lo recs codec s → RecsWF base last lo recs →
       (recordsV2 .fixed o s recs).out = s.out ++ (absRecs base recs).filter (fun r => o ≤ r.1) ∧
-      Bnd o (last + 1) (recordsV2 .fixed o s recs) ∧ s.batchEnd ≤ (recordsV2 .fixed o s recs).batchEnd := by
+      (∀ v2n, Bnd o (last + 1) v2n (recordsV2 .fixed o s recs)) ∧ last + 1 ≤ (recordsV2 .fixed o s recs).batchEnd := by
   intro recs
   induction recs with
   | nil => intro s lo h; exact absurd rfl h
@@ -319,12 +478,100 @@ theorem recordsV2_all {o base last : Int} {codec : Bool} :
     simp only [RecsWF] at hw
     by_cases hrs : rs = []
     · subst hrs
-      refine ⟨?_, by simpa [recordsV2] using hbnd rfl, by simpa [recordsV2] using hmono⟩
+      refine ⟨?_, fun v => by simpa [recordsV2] using (hbnd rfl v).1, by simpa [recordsV2] using (hbnd rfl false).2⟩
       simp [recordsV2, hout, absRecs, List.filter_cons]
     · obtain ⟨h1, h2, h3⟩ := ih (recordV2 .fixed o s d t z) (base + d + 1) hrs (hmid hrs) hw.2.2.2
-      refine ⟨?_, by simpa [recordsV2] using h2, by simp only [recordsV2]; omega⟩
+      refine ⟨?_, fun v => by simpa [recordsV2] using h2 v, by simpa [recordsV2] using h3⟩
       simp only [recordsV2, h1, hout, absRecs, List.map_cons, List.filter_cons, List.append_assoc]
       by_cases h : o ≤ base + d <;> simp [h]
+
+end KV.C02
+
+namespace KV.C02
+
+/-! ### v0/v1 messages -/
+
+/-- after the header of a v0/v1 item has been consumed and marked read (count = 0): what `messageV1` needs and keeps -/
+structure W (o lo : Int) (s : St) : Prop where
+  count0 : s.count = 0
+  started : s.started = true
+  len1 : s.lenRem = 1
+  be : s.batchEnd ≤ lo
+  offle : s.off ≤ o ∨ s.off ≤ lo
+  lastle : s.lastOff ≤ lo
+  lo0 : 0 ≤ lo
+  outok : OutOK o s
+
+theorem W.mono {o lo lo' : Int} {s : St} (h : W o lo s) (hle : lo ≤ lo') : W o lo' s :=
+  ⟨h.count0, h.started, h.len1, by have := h.be; omega, by have := h.offle; omega, by have := h.lastle; omega,
+   by have := h.lo0; omega, h.outok⟩
+
+theorem W.bnd {o lo : Int} {s : St} (h : W o lo s) (v2n : Bool) (hv : v2n = true → s.inV1 = false) : Bnd o lo v2n s :=
+  ⟨h.count0, hv, h.be, h.offle, h.lastle, h.lo0, by intro _ h0; have := h.len1; omega, by intro h0; simp [h.started] at h0, h.outok⟩
+
+theorem messageV1_W {o lo x : Int} {t : Nat} {s : St} (h : W o lo s) (hx : lo ≤ x) :
+    W o (x + 1) (messageV1 .fixed o s x t) ∧
+    (messageV1 .fixed o s x t).out = s.out ++ (if o ≤ x then [(x, t)] else []) ∧
+    (messageV1 .fixed o s x t).batchEnd = s.batchEnd ∧
+    (o ≤ x → (messageV1 .fixed o s x t).inV1 = false) := by
+  obtain ⟨hc, hst, hl, hbe, hoff, hlast, hlo0, hok⟩ := h
+  unfold messageV1
+  by_cases hskip : x < s.off
+  · simp only [hskip, if_true]
+    have hxo : ¬ o ≤ x := by omega
+    refine ⟨⟨hc, hst, hl, by simp only; omega, by simp only; omega, by simp only; omega, by omega, hok⟩, by simp [hxo], trivial, fun h => absurd h hxo⟩
+  · simp only [hskip, if_false]
+    have hok' : OutOK o (onRecord .fixed o s x (-1) t) := onRecord_outOK hok (by omega)
+    refine ⟨⟨?_, ?_, ?_, ?_, ?_, ?_, by omega, hok'⟩, ?_, ?_, ?_⟩ <;>
+      (try simp only [onRecord, hc, hst, hl]) <;> (try (split <;> omega)) <;> (try omega)
+    · by_cases h : o ≤ x
+      · have : ¬ x < o := by omega
+        simp [h, this]
+      · have : x < o := by omega
+        simp [h, this]
+    · intro _; trivial
+
+theorem messagesV1_all {o base hi : Int} :
+    ∀ (inner : List (Int × Nat)) (s : St) (lo : Int), W o lo s → lo ≤ hi + 1 → InnerWF base hi lo inner →
+      W o (hi + 1) (messagesV1 .fixed o base s inner) ∧
+      (messagesV1 .fixed o base s inner).out = s.out ++ (absInner base inner).filter (fun r => o ≤ r.1) ∧
+      (messagesV1 .fixed o base s inner).batchEnd = s.batchEnd ∧
+      (∀ l, inner.getLast? = some l → o ≤ l.1 + base → (messagesV1 .fixed o base s inner).inV1 = false) := by
+  intro inner
+  induction inner with
+  | nil =>
+    intro s lo hw hle _
+    exact ⟨by simpa [messagesV1] using hw.mono hle, by simp [messagesV1, absInner], rfl, by intro l hl; simp at hl⟩
+  | cons x ms ih =>
+    intro s lo hw _ hin
+    obtain ⟨f, t⟩ := x
+    simp only [InnerWF] at hin
+    obtain ⟨h1, h2, h3, h4⟩ := messageV1_W (t := t) hw hin.1
+    obtain ⟨i1, i2, i3, i4⟩ := ih (messageV1 .fixed o s (f + base) t) (f + base + 1) h1 (by omega) hin.2.2
+    refine ⟨by simpa [messagesV1] using i1, ?_, by simp only [messagesV1]; rw [i3, h3], ?_⟩
+    · simp only [messagesV1, i2, h2, absInner, List.map_cons, List.filter_cons, List.append_assoc]
+      by_cases h : o ≤ f + base <;> simp [h]
+    · intro l hl hol
+      simp only [messagesV1]
+      cases ms with
+      | nil =>
+        simp only [List.getLast?_singleton, Option.some.injEq] at hl
+        subst hl
+        simpa [messagesV1] using h4 hol
+      | cons y ys =>
+        apply i4 l _ hol
+        simpa [List.getLast?_cons_cons] using hl
+
+theorem wrapper_last {woff : Int} {inner : List (Int × Nat)} {l : Int × Nat} (h : inner.getLast? = some l) :
+    l.1 + wrapperBase woff inner = woff := by
+  simp only [wrapperBase, h, Option.map_some, Option.getD_some]
+  omega
+
+end KV.C02
+
+namespace KV.C02
+
+/-! ### headers read in a boundary state -/
 
 /-- the header of batch [base,last] read in a boundary state -/
 def afterH2 (s : St) (base last : Int) (c : Nat) (z : Bool) (pl : Nat) : St :=
@@ -343,24 +590,25 @@ theorem afterH2_be_pos (s : St) (b l : Int) {c : Nat} (z : Bool) (pl : Nat) (h :
   simp [afterH2, h]
 theorem afterH2_be_zero (s : St) (b l : Int) (z : Bool) (pl : Nat) : (afterH2 s b l 0 z pl).batchEnd = l + 1 := by
   simp [afterH2]; omega
+theorem afterH2_outOK {o : Int} {s : St} (h : OutOK o s) (b l : Int) (c : Nat) (z : Bool) (pl : Nat) : OutOK o (afterH2 s b l c z pl) := h
 
-theorem step_h2 {e : Bool} {o nb : Int} {s : St} (hb : Bnd o nb s) (base last : Int) (c : Nat) (z : Bool) (pl : Nat) :
+theorem step_h2 {e : Bool} {o nb : Int} {s : St} (hb : Bnd o nb true s) (base last : Int) (c : Nat) (z : Bool) (pl : Nat) :
     step .fixed e o s (.h2 base (last - base) c z pl) = .cont (afterH2 s base last c z pl) := by
-  simp [step, afterH2, hb.count0, hb.notV1]
+  simp [step, afterH2, hb.count0, hb.notV1 rfl]
 
-theorem mid_afterH2 {o nb base last : Int} {s : St} (hb : Bnd o nb s) (hnb : nb ≤ base) (recs : List (Int × Nat × Nat))
+theorem mid_afterH2 {o nb base last : Int} {s : St} (hb : Bnd o nb true s) (hnb : nb ≤ base) (recs : List (Int × Nat × Nat))
     (hne : recs ≠ []) (z : Bool) (pl : Nat) (hpl : z = false → pl = sumSizes recs) :
     Mid o base last base recs z (afterH2 s base last recs.length z pl) := by
   have hlen : recs.length ≠ 0 := by simpa using hne
-  refine ⟨rfl, rfl, rfl, rfl, rfl, hb.notV1, ?_, ?_, ?_, ?_, rfl⟩
+  refine ⟨rfl, rfl, rfl, rfl, rfl, hb.notV1 rfl, ?_, ?_, ?_, ?_, rfl, afterH2_outOK hb.outok _ _ _ _ _⟩
   · rw [afterH2_be_pos _ _ _ _ _ hlen]; have := hb.be; omega
   · rw [afterH2_off]; have := hb.offle; omega
   · have := hb.nb0; omega
   · intro h; rw [afterH2_lenRem, hpl h]
 
-theorem bnd_afterH2_empty {o nb base last : Int} {s : St} (hb : Bnd o nb s) (hnb : nb ≤ base) (hbl : base ≤ last) (z : Bool) :
-    Bnd o (last + 1) (afterH2 s base last 0 z 0) := by
-  refine ⟨rfl, hb.notV1, ?_, ?_, ?_, ?_, ?_, ?_⟩
+theorem bnd_afterH2_empty {o nb base last : Int} {s : St} (hb : Bnd o nb true s) (hnb : nb ≤ base) (hbl : base ≤ last) (z : Bool)
+    (v2n : Bool) : Bnd o (last + 1) v2n (afterH2 s base last 0 z 0) ∧ last + 1 ≤ (afterH2 s base last 0 z 0).batchEnd := by
+  refine ⟨⟨rfl, fun _ => hb.notV1 rfl, ?_, ?_, ?_, ?_, ?_, ?_, afterH2_outOK hb.outok _ _ _ _ _⟩, ?_⟩
   · rw [afterH2_be_zero]; omega
   · rw [afterH2_off]; have := hb.offle; omega
   · rw [afterH2_lastOff]; have := hb.lastle; omega
@@ -370,36 +618,78 @@ theorem bnd_afterH2_empty {o nb base last : Int} {s : St} (hb : Bnd o nb s) (hnb
     rw [afterH2_lastOff, afterH2_be_zero]
     have := hb.lastle; omega
   · intro h; simp at h
+  · rw [afterH2_be_zero]; omega
 
-/-- **Main lemma**: the repaired decoder on any well-formed v2 layout, any byte budget, from any boundary state. -/
-theorem v2_run (e : Bool) (o : Int) :
-    ∀ (items : List Item) (nb : Int) (s : St) (n : Nat), V2WF nb items → Bnd o nb s →
-      PostL o (contained items n) (allRecords items) s (runCut .fixed e o s (allTokens items) n) := by
+/-- the header of a v0/v1 message read in a boundary state -/
+def afterH1 (s : St) (m : Nat) (f : Int) (z : Bool) : St :=
+  { s with started := true, count := 1, magic := m, first := f, codec := z, lenRem := 1 }
+
+theorem step_h1 {e : Bool} {o nb : Int} {v2n : Bool} {s : St} (hb : Bnd o nb v2n s) (m : Nat) (f : Int) (z : Bool) :
+    step .fixed e o s (.h1 m f z) = .cont (afterH1 s m f z) := by
+  simp [step, afterH1, hb.count0]
+
+/-- after the header, marked read -/
+theorem w_afterH1 {o nb : Int} {v2n : Bool} {s : St} (hb : Bnd o nb v2n s) (m : Nat) (f : Int) (z : Bool) (iv : Bool) :
+    W o nb { afterH1 s m f z with count := 0, inV1 := iv } :=
+  ⟨rfl, rfl, rfl, hb.be, hb.offle, hb.lastle, hb.nb0, hb.outok⟩
+
+theorem postL_finish_h1 {e : Bool} {o nb : Int} {v2n : Bool} {s : St} (hb : Bnd o nb v2n s) (m : Nat) (f : Int) (z : Bool)
+    {all : List Rec} (hall : ∀ r ∈ all, nb ≤ r.1) :
+    PostL o [] all none s (finish .fixed e (afterH1 s m f z)) := by
+  have := postL_finish (e := e) (o := o) (lo := nb) (all := all) (s := afterH1 s m f z)
+    (by intro _ h0; simp [afterH1] at h0) (by intro h; simp [afterH1] at h) hb.offle hb.be hall hb.outok
+  exact ⟨this.out, this.ok, this.nogap, this.lower, this.resok, this.prog⟩
+
+end KV.C02
+
+namespace KV.C02
+
+theorem runCut_cons_fit {v : Variant} {e : Bool} {o : Int} {t : Tok} {ts : List Tok} {s s' : St} {n : Nat}
+    (hfit : t.size ≤ n) (hstep : step v e o s t = .cont s') :
+    runCut v e o s (t :: ts) n = runCut v e o s' ts (n - t.size) := by simp [runCut, hfit, hstep]
+
+theorem runCut_cons_cut {v : Variant} {e : Bool} {o : Int} {t : Tok} {ts : List Tok} {s : St} {n : Nat}
+    (h : ¬ t.size ≤ n) : runCut v e o s (t :: ts) n = finish v e s := by simp [runCut, h]
+
+/-- what `fetch_progress` promises: the first item arrived whole and reaches the start offset -/
+def progLB (o : Int) (items : List Item) (n : Nat) : Option Int :=
+  match items with
+  | it :: _ => if it.size ≤ n ∧ o ≤ it.last then some (it.last + 1) else none
+  | [] => none
+
+theorem ite_some_eq {c : Prop} [Decidable c] {a b : Int} (h : (if c then some a else none) = some b) : c ∧ a = b := by
+  split at h <;> simp_all
+
+theorem mem_out_lt {o : Int} {exp all : List Rec} {p : Option Int} {s0 : St} {res : St × Outcome}
+    (h : PostL o exp all p s0 res) {r : Rec} (hr : r ∈ s0.out) : r.1 < res.1.off := by
+  have : r ∈ res.1.out := by rw [h.out]; exact List.mem_append_left _ hr
+  exact (h.resok.1 r this).2
+
+/-- **Main lemma**: the repaired decoder on any well-formed layout, any byte budget, from any boundary state. -/
+theorem layout_run (e : Bool) (o : Int) :
+    ∀ (items : List Item) (nb : Int) (s : St) (n : Nat), LWF nb items → Safe o items → Bnd o nb (headB2 items) s →
+      PostL o (contained items n) (allRecords items) (progLB o items n) s (runCut .fixed e o s (allTokens items) n) := by
   intro items
   induction items with
   | nil =>
-    intro nb s n _ hb
-    have := postL_finish (e := e) (o := o) (lo := nb) (all := []) hb.J hb.init hb.offle hb.be (by simp)
-    simpa [allTokens, allRecords, contained, runCut] using this
+    intro nb s n _ _ hb
+    have := postL_finish (e := e) (o := o) (lo := nb) (all := []) hb.J hb.init hb.offle hb.be (by simp) hb.outok
+    simpa [allTokens, allRecords, contained, runCut, progLB] using this
   | cons it rest ih =>
-    intro nb s n hw hb
+    intro nb s n hw hsafe hb
+    have hall : ∀ r ∈ allRecords (it :: rest), nb ≤ r.1 := lwf_lb hw
+    obtain ⟨hib, hilast, hrestwf⟩ := item_bounds hw
+    have hrest : ∀ r ∈ allRecords rest, it.last + 1 ≤ r.1 := lwf_lb hrestwf
+    have IH := fun (s : St) (n : Nat) (h : Bnd o (it.last + 1) (headB2 rest) s) => ih (it.last + 1) s n hrestwf hsafe.2 h
+    have hallrec : allRecords (it :: rest) = it.records ++ allRecords rest := by simp [allRecords]
     cases it with
-    | m _ _ _ _ => simp [V2WF] at hw
-    | w _ _ _ _ => simp [V2WF] at hw
     | b2 base last codec plen recs =>
-      simp only [V2WF] at hw
-      obtain ⟨hnb, hbl, hrw, hplain, hcomp, hrestwf⟩ := hw
-      have hrest : ∀ r ∈ allRecords rest, last + 1 ≤ r.1 := v2wf_lb hrestwf
-      have hall : ∀ r ∈ allRecords (Item.b2 base last codec plen recs :: rest), nb ≤ r.1 := by
-        intro r hr
-        simp only [allRecords, List.flatMap_cons, List.mem_append] at hr
-        rcases hr with hr | hr
-        · have := (recsWF_lb hrw r (by simpa [Item.records, absRecs] using hr)).1; omega
-        · have := hrest r (by simpa [allRecords] using hr); omega
-      have IH := fun (s : St) (n : Nat) (h : Bnd o (last + 1) s) => ih (last + 1) s n hrestwf h
+      simp only [LWF] at hw
+      obtain ⟨hnb, hbl, hrw, hplain, hcomp, _⟩ := hw
+      simp only [Item.last] at IH hrest
+      have hb : Bnd o nb true s := hb
       have hrecs : (Item.b2 base last codec plen recs).records = absRecs base recs := rfl
-      have hallrec : allRecords (Item.b2 base last codec plen recs :: rest) = absRecs base recs ++ allRecords rest := by
-        simp [allRecords, hrecs]
+      rw [hrecs] at hallrec
       by_cases h61 : 61 ≤ n
       · -- the header fits
         have hs1 := step_h2 (e := e) hb base last recs.length codec plen
@@ -424,22 +714,32 @@ theorem v2_run (e : Bool) (o : Int) :
             · have : ¬ 61 + sumSizes recs ≤ n := by omega
               simp only [this, h2, if_false]
           rw [hrun, hexp, hallrec]
-          have hp := plain_recs e o base last rest IH hrest recs (afterH2 s base last recs.length false plen) (n - 61) base
+          have hp := plain_recs e o base last rest (progLB o rest) IH hrest recs (afterH2 s base last recs.length false plen) (n - 61) base
             (fun hne => mid_afterH2 hb hnb recs hne false plen (fun _ => hpl))
             (by
               intro hnil
               subst hnil
               have : plen = 0 := by simpa [sumSizes] using hpl
               subst this
-              exact bnd_afterH2_empty hb hnb hbl false)
+              exact bnd_afterH2_empty hb hnb hbl false _)
             hrw
-          refine ⟨by simpa using hp.out, hp.ok, hp.nogap, ?_⟩
-          have h1 := hp.lower
-          by_cases hl : recs.length = 0
-          · have hbe0 : (afterH2 s base last recs.length false plen).batchEnd = last + 1 := by
-              rw [hl]; exact afterH2_be_zero _ _ _ _ _
-            rw [hbe0] at h1; have := hb.be; omega
-          · rw [afterH2_be_pos _ _ _ _ _ hl] at h1; exact h1
+          refine ⟨by simpa using hp.out, hp.ok, hp.nogap, ?_, hp.resok, ?_⟩
+          · have h1 := hp.lower
+            by_cases hl : recs.length = 0
+            · have hbe0 : (afterH2 s base last recs.length false plen).batchEnd = last + 1 := by
+                rw [hl]; exact afterH2_be_zero _ _ _ _ _
+              rw [hbe0] at h1; have := hb.be; omega
+            · rw [afterH2_be_pos _ _ _ _ _ hl] at h1; exact h1
+          · intro b hb'
+            simp only [progLB, Item.size, Item.last, hpl] at hb'
+            apply hp.prog b
+            by_cases h2 : sumSizes recs ≤ n - 61
+            · simp only [h2, if_true]
+              split at hb'
+              · exact hb'
+              · cases hb'
+            · have : ¬ (61 + sumSizes recs ≤ n ∧ o ≤ last) := by omega
+              simp only [this, if_false] at hb'; cases hb'
         | true =>
           obtain ⟨hne, hpl1⟩ := hcomp rfl
           have hlen : recs.length ≠ 0 := by simpa using hne
@@ -462,8 +762,8 @@ theorem v2_run (e : Bool) (o : Int) :
             have hexp : contained (Item.b2 base last true plen recs :: rest) n = absRecs base recs ++ contained rest (n - 61 - plen) := by
               simp [contained, Item.size, hrecs, hfit, e1]
             rw [hrun, hexp, hallrec]
-            have hp := IH _ (n - 61 - plen) hbnd
-            refine ⟨?_, hp.ok, ?_, ?_⟩
+            have hp := IH _ (n - 61 - plen) (hbnd _)
+            refine ⟨?_, hp.ok, ?_, ?_, hp.resok, ?_⟩
             · rw [hp.out, hout]; simp [List.filter_append]
             · intro r hr ho hlt
               simp only [List.mem_append] at hr ⊢
@@ -471,38 +771,187 @@ theorem v2_run (e : Bool) (o : Int) :
               · exact Or.inl hr
               · exact Or.inr (hp.nogap r hr ho hlt)
             · have := hp.lower
-              rw [afterH2_be_pos _ _ _ _ _ hlen] at hmono
+              have := hb.be
               omega
+            · intro b hb'
+              simp only [progLB, Item.last] at hb'
+              obtain ⟨_, rfl⟩ := ite_some_eq hb'
+              have := hp.lower; omega
           · -- the payload is cut: batchRemain > r.remain
             have hrun : runCut .fixed e o s (allTokens (Item.b2 base last true plen recs :: rest)) n
                 = finish .fixed e (afterH2 s base last recs.length true plen) := by
               rw [htoks]; simp [runCut, Tok.size, h61, hs1, hz]
+            have hnf : ¬ 61 + plen ≤ n := by omega
             have hexp : contained (Item.b2 base last true plen recs :: rest) n = [] := by
-              have : ¬ 61 + plen ≤ n := by omega
-              simp [contained, Item.size, this]
-            rw [hrun, hexp]
+              simp [contained, Item.size, hnf]
+            have hprog : progLB o (Item.b2 base last true plen recs :: rest) n = none := by
+              simp [progLB, Item.size, hnf]
+            rw [hrun, hexp, hprog]
             have hp := postL_finish (e := e) (o := o) (lo := nb) (all := allRecords (Item.b2 base last true plen recs :: rest))
               (s := afterH2 s base last recs.length true plen)
               (by intro _ h0; rw [afterH2_lenRem] at h0; omega)
               (by intro h; simp at h)
               (by rw [afterH2_off]; exact hb.offle)
               (by rw [afterH2_be_pos _ _ _ _ _ hlen]; exact hb.be)
-              hall
-            refine ⟨by simpa using hp.out, hp.ok, hp.nogap, ?_⟩
+              hall (afterH2_outOK hb.outok _ _ _ _ _)
+            refine ⟨by simpa using hp.out, hp.ok, hp.nogap, ?_, hp.resok, hp.prog⟩
             have := hp.lower
             rwa [afterH2_be_pos _ _ _ _ _ hlen] at this
       · -- not even the header fits
         have hrun : runCut .fixed e o s (allTokens (Item.b2 base last codec plen recs :: rest)) n = finish .fixed e s := by
           cases codec <;> simp [allTokens, tokensOf, runCut, Tok.size, h61]
+        have hnf : ¬ 61 + plen ≤ n := by omega
         have hexp : contained (Item.b2 base last codec plen recs :: rest) n = [] := by
-          have : ¬ 61 + plen ≤ n := by omega
-          cases codec <;> simp [contained, Item.size, this, h61]
-        rw [hrun, hexp]
-        exact postL_finish hb.J hb.init hb.offle hb.be hall
+          cases codec <;> simp [contained, Item.size, hnf, h61]
+        have hprog : progLB o (Item.b2 base last codec plen recs :: rest) n = none := by
+          simp [progLB, Item.size, hnf]
+        rw [hrun, hexp, hprog]
+        exact postL_finish hb.J hb.init hb.offle hb.be hall hb.outok
+    | m magic off tag size =>
+      simp only [LWF] at hw
+      obtain ⟨hmag, hnbo, hsz, _⟩ := hw
+      simp only [Item.last] at IH hrest
+      have hrecs : (Item.m magic off tag size).records = [(off, tag)] := rfl
+      rw [hrecs] at hallrec
+      have htoks : allTokens (Item.m magic off tag size :: rest)
+          = Tok.h1 magic off false :: Tok.kv tag (size - hdr1Size magic) :: allTokens rest := by
+        simp [allTokens, tokensOf]
+      have hh : (Tok.h1 magic off false).size = hdr1Size magic := by simp [Tok.size, hdr1Size]
+      by_cases hfit : size ≤ n
+      · -- the whole message is there
+        have hs1 := step_h1 (e := e) hb magic off false
+        have hw1 := w_afterH1 hb magic off false s.inV1
+        obtain ⟨m1, m2, m3, m4⟩ := messageV1_W (t := tag) hw1 hnbo
+        have hs2 : step .fixed e o (afterH1 s magic off false) (.kv tag (size - hdr1Size magic))
+            = .cont (messageV1 .fixed o { afterH1 s magic off false with count := 0, inV1 := s.inV1 } off tag) := by
+          rcases hmag with h | h <;> simp [step, afterH1, h]
+        have hrun : runCut .fixed e o s (allTokens (Item.m magic off tag size :: rest)) n
+            = runCut .fixed e o (messageV1 .fixed o { afterH1 s magic off false with count := 0, inV1 := s.inV1 } off tag)
+                (allTokens rest) (n - size) := by
+          have hk : (Tok.kv tag (size - hdr1Size magic)).size = size - hdr1Size magic := rfl
+          rw [htoks, runCut_cons_fit (by rw [hh]; omega) hs1, runCut_cons_fit (by rw [hh, hk]; omega) hs2]
+          have a3 : n - (Tok.h1 magic off false).size - (Tok.kv tag (size - hdr1Size magic)).size = n - size := by
+            rw [hh, hk]; omega
+          rw [a3]
+        have hexp : contained (Item.m magic off tag size :: rest) n = [(off, tag)] ++ contained rest (n - size) := by
+          simp [contained, Item.size, hfit, hrecs]
+        rw [hrun, hexp, hallrec]
+        have hbnd : Bnd o (off + 1) (headB2 rest) (messageV1 .fixed o { afterH1 s magic off false with count := 0, inV1 := s.inV1 } off tag) := by
+          apply m1.bnd
+          intro hv
+          have := hsafe.1 hv
+          simp only [isB2, Bool.false_eq_true, false_or, Item.last] at this
+          exact m4 this
+        have hp := IH _ (n - size) hbnd
+        refine ⟨?_, hp.ok, ?_, ?_, hp.resok, ?_⟩
+        · rw [hp.out, m2]
+          by_cases h : o ≤ off <;> simp [h, afterH1]
+        · intro r hr ho hlt
+          simp only [List.mem_append] at hr ⊢
+          rcases hr with hr | hr
+          · exact Or.inl hr
+          · exact Or.inr (hp.nogap r hr ho hlt)
+        · have := hp.lower; rw [m3] at this; simpa [afterH1] using this
+        · intro b hb'
+          simp only [progLB, Item.last] at hb'
+          obtain ⟨hc, rfl⟩ := ite_some_eq hb'
+          · have hmem : (off, tag) ∈ (messageV1 .fixed o { afterH1 s magic off false with count := 0, inV1 := s.inV1 } off tag).out := by
+              rw [m2]; simp [hc.2]
+            exact Int.add_one_le_iff.mpr (mem_out_lt hp hmem)
+      · -- the message is cut
+        have hexp : contained (Item.m magic off tag size :: rest) n = [] := by simp [contained, Item.size, hfit]
+        have hprog : progLB o (Item.m magic off tag size :: rest) n = none := by simp [progLB, Item.size, hfit]
+        rw [hexp, hprog]
+        by_cases hh1 : hdr1Size magic ≤ n
+        · have hs1 := step_h1 (e := e) hb magic off false
+          have hrun : runCut .fixed e o s (allTokens (Item.m magic off tag size :: rest)) n = finish .fixed e (afterH1 s magic off false) := by
+            have hk : (Tok.kv tag (size - hdr1Size magic)).size = size - hdr1Size magic := rfl
+            rw [htoks, runCut_cons_fit (by rw [hh]; omega) hs1, runCut_cons_cut (by rw [hh, hk]; omega)]
+          rw [hrun]
+          exact postL_finish_h1 hb magic off false hall
+        · have hrun : runCut .fixed e o s (allTokens (Item.m magic off tag size :: rest)) n = finish .fixed e s := by
+            rw [htoks, runCut_cons_cut (by rw [hh]; omega)]
+          rw [hrun]
+          exact postL_finish hb.J hb.init hb.offle hb.be hall hb.outok
+    | w magic woff size inner =>
+      simp only [LWF] at hw
+      obtain ⟨hmag, hne, hin, hsz, _⟩ := hw
+      simp only [Item.last] at IH hrest
+      have hrecs : (Item.w magic woff size inner).records = absInner (wrapperBase woff inner) inner := rfl
+      rw [hrecs] at hallrec
+      have htoks : allTokens (Item.w magic woff size inner :: rest)
+          = Tok.h1 magic woff true :: Tok.zv (size - hdr1Size magic) inner :: allTokens rest := by
+        simp [allTokens, tokensOf]
+      have hh : (Tok.h1 magic woff true).size = hdr1Size magic := by simp [Tok.size, hdr1Size]
+      have hnbw : nb ≤ woff + 1 := by simp only [Item.last] at hilast; omega
+      by_cases hfit : size ≤ n
+      · have hs1 := step_h1 (e := e) hb magic woff true
+        have hw1 := w_afterH1 hb magic woff true true
+        obtain ⟨m1, m2, m3, m4⟩ := messagesV1_all inner _ nb hw1 hnbw hin
+        have hs2 : step .fixed e o (afterH1 s magic woff true) (.zv (size - hdr1Size magic) inner)
+            = .cont (messagesV1 .fixed o (wrapperBase woff inner) { afterH1 s magic woff true with count := 0, inV1 := true } inner) := by
+          rcases hmag with h | h <;> simp [step, afterH1, h]
+        have hrun : runCut .fixed e o s (allTokens (Item.w magic woff size inner :: rest)) n
+            = runCut .fixed e o (messagesV1 .fixed o (wrapperBase woff inner) { afterH1 s magic woff true with count := 0, inV1 := true } inner)
+                (allTokens rest) (n - size) := by
+          have hk : (Tok.zv (size - hdr1Size magic) inner).size = size - hdr1Size magic := rfl
+          rw [htoks, runCut_cons_fit (by rw [hh]; omega) hs1, runCut_cons_fit (by rw [hh, hk]; omega) hs2]
+          have a3 : n - (Tok.h1 magic woff true).size - (Tok.zv (size - hdr1Size magic) inner).size = n - size := by
+            rw [hh, hk]; omega
+          rw [a3]
+        have hexp : contained (Item.w magic woff size inner :: rest) n
+            = absInner (wrapperBase woff inner) inner ++ contained rest (n - size) := by
+          simp [contained, Item.size, hfit, hrecs]
+        rw [hrun, hexp, hallrec]
+        obtain ⟨l, hl⟩ : ∃ l, inner.getLast? = some l := by
+          cases hgl : inner.getLast? with
+          | none => exact absurd (List.getLast?_eq_none_iff.mp hgl) hne
+          | some l => exact ⟨l, rfl⟩
+        have hlast := wrapper_last (woff := woff) hl
+        have hbnd : Bnd o (woff + 1) (headB2 rest) (messagesV1 .fixed o (wrapperBase woff inner) { afterH1 s magic woff true with count := 0, inV1 := true } inner) := by
+          apply m1.bnd
+          intro hv
+          have := hsafe.1 hv
+          simp only [isB2, Bool.false_eq_true, false_or, Item.last] at this
+          exact m4 l hl (by omega)
+        have hp := IH _ (n - size) hbnd
+        refine ⟨?_, hp.ok, ?_, ?_, hp.resok, ?_⟩
+        · rw [hp.out, m2]; simp [afterH1, List.filter_append]
+        · intro r hr ho hlt
+          simp only [List.mem_append] at hr ⊢
+          rcases hr with hr | hr
+          · exact Or.inl hr
+          · exact Or.inr (hp.nogap r hr ho hlt)
+        · have := hp.lower; rw [m3] at this; simpa [afterH1] using this
+        · intro b hb'
+          simp only [progLB, Item.last] at hb'
+          obtain ⟨hc, rfl⟩ := ite_some_eq hb'
+          · have hmem : (woff, l.2) ∈ (messagesV1 .fixed o (wrapperBase woff inner) { afterH1 s magic woff true with count := 0, inV1 := true } inner).out := by
+              rw [m2]
+              apply List.mem_append_right
+              simp only [List.mem_filter, decide_eq_true_eq, absInner, List.mem_map]
+              exact ⟨⟨l, List.mem_of_getLast? hl, by simp [hlast]⟩, hc.2⟩
+            exact Int.add_one_le_iff.mpr (mem_out_lt hp hmem)
+      · have hexp : contained (Item.w magic woff size inner :: rest) n = [] := by simp [contained, Item.size, hfit]
+        have hprog : progLB o (Item.w magic woff size inner :: rest) n = none := by simp [progLB, Item.size, hfit]
+        rw [hexp, hprog]
+        by_cases hh1 : hdr1Size magic ≤ n
+        · have hs1 := step_h1 (e := e) hb magic woff true
+          have hrun : runCut .fixed e o s (allTokens (Item.w magic woff size inner :: rest)) n = finish .fixed e (afterH1 s magic woff true) := by
+            have hk : (Tok.zv (size - hdr1Size magic) inner).size = size - hdr1Size magic := rfl
+            rw [htoks, runCut_cons_fit (by rw [hh]; omega) hs1, runCut_cons_cut (by rw [hh, hk]; omega)]
+          rw [hrun]
+          exact postL_finish_h1 hb magic woff true hall
+        · have hrun : runCut .fixed e o s (allTokens (Item.w magic woff size inner :: rest)) n = finish .fixed e s := by
+            rw [htoks, runCut_cons_cut (by rw [hh]; omega)]
+          rw [hrun]
+          exact postL_finish hb.J hb.init hb.offle hb.be hall hb.outok
 
 end KV.C02
 
 namespace KV.C02
+
+/-! ### from `runCut` back to `readAll`, `fetchOnce`, `fetchSeq` -/
 
 def itemsSize : List Item → Nat
   | [] => 0
@@ -520,8 +969,232 @@ theorem contained_all : ∀ (items : List Item) (n : Nat), itemsSize items ≤ n
     rw [ih (n - it.size) (by omega)]
     rfl
 
+theorem fitRecs_subset (base : Int) : ∀ (recs : List (Int × Nat × Nat)) (n : Nat), ∀ r ∈ fitRecs base recs n, r ∈ absRecs base recs := by
+  intro recs
+  induction recs with
+  | nil => intro n r hr; simp [fitRecs] at hr
+  | cons x rs ih =>
+    intro n r hr
+    obtain ⟨d, t, z⟩ := x
+    simp only [fitRecs] at hr
+    split at hr
+    · simp only [List.mem_cons] at hr
+      rcases hr with rfl | hr
+      · simp [absRecs]
+      · have := ih _ r hr
+        simp only [absRecs, List.map_cons, List.mem_cons]; right; simpa [absRecs] using this
+    · simp at hr
+
+theorem contained_subset : ∀ (items : List Item) (n : Nat), ∀ r ∈ contained items n, r ∈ allRecords items := by
+  intro items
+  induction items with
+  | nil => intro n r hr; simp [contained] at hr
+  | cons it rest ih =>
+    intro n r hr
+    simp only [allRecords, List.flatMap_cons, List.mem_append]
+    simp only [contained] at hr
+    split at hr
+    · simp only [List.mem_append] at hr
+      rcases hr with hr | hr
+      · exact Or.inl hr
+      · exact Or.inr (by simpa [allRecords] using ih _ r hr)
+    · left
+      cases it with
+      | b2 base last codec plen recs =>
+        cases codec with
+        | false =>
+          simp only at hr
+          split at hr
+          · exact fitRecs_subset base recs _ r hr
+          · simp at hr
+        | true => simp at hr
+      | m _ _ _ _ => simp at hr
+      | w _ _ _ _ => simp at hr
+
 /-- the state of a fresh Batch on a Conn positioned at `o ≥ 0` is a boundary state -/
-theorem bnd_init {o nb : Int} (ho : 0 ≤ o) (hnb : 0 ≤ nb) : Bnd o nb { off := o } := by
-  refine ⟨rfl, rfl, ?_, ?_, ?_, hnb, ?_, ?_⟩ <;> simp <;> omega
+theorem bnd_init {o nb : Int} (ho : 0 ≤ o) (hnb : 0 ≤ nb) (v2n : Bool) : Bnd o nb v2n { off := o } := by
+  refine ⟨rfl, fun _ => rfl, ?_, ?_, ?_, hnb, ?_, ?_, ⟨by simp, by simp⟩⟩ <;> simp <;> omega
+
+theorem lasts_ge : ∀ {items : List Item} {nb : Int}, LWF nb items → ∀ it ∈ items, nb ≤ it.last := by
+  intro items
+  induction items with
+  | nil => intro nb _ it hit; simp at hit
+  | cons x rest ih =>
+    intro nb h it hit
+    obtain ⟨_, h2, h3⟩ := item_bounds h
+    simp only [List.mem_cons] at hit
+    rcases hit with rfl | hit
+    · exact h2
+    · have := ih h3 it hit; omega
+
+theorem safe_of_lasts {o : Int} : ∀ {items : List Item}, (∀ it ∈ items, o ≤ it.last) → Safe o items := by
+  intro items
+  induction items with
+  | nil => intro _; trivial
+  | cons x rest ih =>
+    intro h
+    exact ⟨fun _ => Or.inr (h x (by simp)), ih (fun it hit => h it (by simp [hit]))⟩
+
+/-- a response that starts with the batch containing the offset (the fetch contract) is `Safe` -/
+theorem safe_of_contract {o nb : Int} {it : Item} {rest : List Item} (h : LWF nb (it :: rest)) (ho : o ≤ it.last) :
+    Safe o (it :: rest) := by
+  apply safe_of_lasts
+  intro x hx
+  simp only [List.mem_cons] at hx
+  rcases hx with rfl | hx
+  · exact ho
+  · have := lasts_ge (item_bounds h).2.2 x hx; omega
+
+theorem safe_of_v2 {o : Int} : ∀ {items : List Item}, (∀ it ∈ items, isB2 it = true) → Safe o items := by
+  intro items
+  induction items with
+  | nil => intro _; trivial
+  | cons x rest ih => intro h; exact ⟨fun _ => Or.inl (h x (by simp)), ih (fun it hit => h it (by simp [hit]))⟩
+
+theorem safe_of_v1 {o : Int} : ∀ {items : List Item}, (∀ it ∈ items, isB2 it = false) → Safe o items := by
+  intro items
+  induction items with
+  | nil => intro _; trivial
+  | cons x rest ih =>
+    intro h
+    refine ⟨fun hv => ?_, ih (fun it hit => h it (by simp [hit]))⟩
+    cases rest with
+    | nil => simp [headB2] at hv
+    | cons y ys => have := h y (by simp); simp [headB2, this] at hv
+
+end KV.C02
+
+namespace KV.C02
+
+/-! ### the broker side: `dropBefore`, `serve` -/
+
+theorem dropBefore_spec (q : Int) : ∀ {items : List Item} {nb : Int}, LWF nb items →
+    LWF nb (dropBefore q items) ∧
+    (∀ r ∈ allRecords items, r.1 < q ∨ r ∈ allRecords (dropBefore q items)) ∧
+    (∀ r ∈ allRecords (dropBefore q items), r ∈ allRecords items) ∧
+    (∀ it rest, dropBefore q items = it :: rest → q ≤ it.last) := by
+  intro items
+  induction items with
+  | nil => intro nb _; simp [dropBefore, allRecords, LWF]
+  | cons x rest ih =>
+    intro nb h
+    obtain ⟨h1, h2, h3⟩ := item_bounds h
+    by_cases hx : x.last < q
+    · obtain ⟨i1, i2, i3, i4⟩ := ih h3
+      simp only [dropBefore, hx, if_true]
+      refine ⟨lwf_mono (by omega) i1, ?_, ?_, i4⟩
+      · intro r hr
+        simp only [allRecords, List.flatMap_cons, List.mem_append] at hr
+        rcases hr with hr | hr
+        · left; have := (h1 r hr).2; omega
+        · exact i2 r (by simpa [allRecords] using hr)
+      · intro r hr
+        simp only [allRecords, List.flatMap_cons, List.mem_append]
+        exact Or.inr (by simpa [allRecords] using i3 r hr)
+    · simp only [dropBefore, hx, if_false]
+      refine ⟨h, fun r hr => Or.inr hr, fun r hr => hr, ?_⟩
+      intro it rest' heq
+      simp only [List.cons.injEq] at heq
+      rw [← heq.1]; omega
+
+/-- **one fetch round against a contract-obeying broker** (`fetch_progress` is the last clause) -/
+theorem fetch_round (items : List Item) (nb : Int) (hnb : 0 ≤ nb) (hwf : LWF nb items) (hwm q : Int) (hq : 0 ≤ q) (b : Nat) :
+    let res := fetchOnce .fixed items hwm q b
+    q ≤ res.2.1 ∧
+    (∀ r ∈ res.1, r ∈ allRecords items ∧ q ≤ r.1 ∧ r.1 < res.2.1) ∧
+    (∀ r ∈ allRecords items, q ≤ r.1 → r.1 < res.2.1 → r ∈ res.1) ∧
+    res.1.Pairwise (fun a b => a.1 < b.1) ∧
+    res.2.2 ≠ .desync ∧
+    (hwm ≠ q → dropBefore q items ≠ [] → q < res.2.1) := by
+  by_cases hne : hwm = q
+  · simp [fetchOnce, readAll, hne]
+  · obtain ⟨d1, d2, d3, d4⟩ := dropBefore_spec q hwf
+    have hsafe : Safe q (dropBefore q items) := by
+      cases hsub : dropBefore q items with
+      | nil => trivial
+      | cons it rest => rw [hsub] at d1; exact safe_of_contract d1 (d4 it rest hsub)
+    have hp := layout_run false q (dropBefore q items) nb { off := q } (serveBudget (dropBefore q items) b) d1 hsafe
+      (bnd_init hq hnb _)
+    have hrun : fetchOnce .fixed items hwm q b
+        = ((runCut .fixed false q { off := q } (allTokens (dropBefore q items)) (serveBudget (dropBefore q items) b)).1.out,
+           (runCut .fixed false q { off := q } (allTokens (dropBefore q items)) (serveBudget (dropBefore q items) b)).1.off,
+           (runCut .fixed false q { off := q } (allTokens (dropBefore q items)) (serveBudget (dropBefore q items) b)).2) := by
+      simp only [fetchOnce, readAll, hne, if_false, serve, run_truncate]
+    rw [hrun]
+    simp only
+    have hout := hp.out
+    simp only [List.nil_append] at hout
+    refine ⟨?_, ?_, ?_, hp.resok.2, hp.ok, ?_⟩
+    · -- the position never moves backwards
+      cases hsub : dropBefore q items with
+      | nil => simp [allTokens, runCut, finish]
+      | cons it rest =>
+        have hpr := hp.prog
+        rw [hsub] at hpr
+        have : it.size ≤ serveBudget (it :: rest) b := by simp only [serveBudget]; omega
+        have hlast := d4 it rest hsub
+        have := hpr (it.last + 1) (by simp [progLB, this, hlast])
+        omega
+    · intro r hr
+      have hb := hp.resok.1 r hr
+      rw [hout] at hr
+      simp only [List.mem_filter] at hr
+      exact ⟨d3 r (contained_subset _ _ r hr.1), hb⟩
+    · intro r hr h1 h2
+      rcases d2 r hr with hlt | hsub
+      · omega
+      · rw [hout]
+        simp only [List.mem_filter, decide_eq_true_eq]
+        exact ⟨hp.nogap r hsub h1 h2, h1⟩
+    · intro _ hsubne
+      cases hsub : dropBefore q items with
+      | nil => exact absurd hsub hsubne
+      | cons it rest =>
+        have hpr := hp.prog
+        rw [hsub] at hpr
+        have : it.size ≤ serveBudget (it :: rest) b := by simp only [serveBudget]; omega
+        have hlast := d4 it rest hsub
+        have := hpr (it.last + 1) (by simp [progLB, this, hlast])
+        omega
+
+theorem fetchSeq_cons (v : Variant) (items : List Item) (hwm q : Int) (b : Nat) (bs : List Nat) :
+    fetchSeq v items hwm q (b :: bs)
+      = ((fetchOnce v items hwm q b).1 ++ (fetchSeq v items hwm (fetchOnce v items hwm q b).2.1 bs).1,
+         (fetchSeq v items hwm (fetchOnce v items hwm q b).2.1 bs).2) := rfl
+
+/-- **iterated fetches**: invariant `delivered = log ∩ [start, connOffset)`, strictly increasing -/
+theorem fetchSeq_inv (items : List Item) (nb : Int) (hnb : 0 ≤ nb) (hwf : LWF nb items) (hwm : Int) :
+    ∀ (budgets : List Nat) (q : Int), 0 ≤ q →
+      let res := fetchSeq .fixed items hwm q budgets
+      q ≤ res.2 ∧
+      (∀ r ∈ res.1, r ∈ allRecords items ∧ q ≤ r.1 ∧ r.1 < res.2) ∧
+      (∀ r ∈ allRecords items, q ≤ r.1 → r.1 < res.2 → r ∈ res.1) ∧
+      res.1.Pairwise (fun a b => a.1 < b.1) := by
+  intro budgets
+  induction budgets with
+  | nil => intro q _; simp [fetchSeq]
+  | cons b bs ih =>
+    intro q hq
+    obtain ⟨f1, f2, f3, f4, _, _⟩ := fetch_round items nb hnb hwf hwm q hq b
+    obtain ⟨i1, i2, i3, i4⟩ := ih (fetchOnce .fixed items hwm q b).2.1 (by omega)
+    rw [fetchSeq_cons]
+    simp only
+    refine ⟨by omega, ?_, ?_, ?_⟩
+    · intro r hr
+      simp only [List.mem_append] at hr
+      rcases hr with hr | hr
+      · have := f2 r hr; exact ⟨this.1, this.2.1, by omega⟩
+      · have := i2 r hr; exact ⟨this.1, by omega, this.2.2⟩
+    · intro r hr h1 h2
+      simp only [List.mem_append]
+      by_cases hlt : r.1 < (fetchOnce .fixed items hwm q b).2.1
+      · exact Or.inl (f3 r hr h1 hlt)
+      · exact Or.inr (i3 r hr (by omega) h2)
+    · rw [List.pairwise_append]
+      refine ⟨f4, i4, ?_⟩
+      intro a ha c hc
+      have := (f2 a ha).2.2
+      have := (i2 c hc).2.1
+      omega
 
 end KV.C02
